@@ -16,6 +16,25 @@ COMMON_ASSUME = [
     "refipfix (own RFC 7011 reader/encoder, stdlib only) is correct; it is self-tested at start-up",
 ]
 
+import json as _json, os as _os, subprocess as _sp
+
+def _c20_build(work, race):
+    """Builds cmd/collector's test binary with the in-package driver injected through -overlay."""
+    repo = _os.environ.get("VERIF_REPO", "/repo")
+    here = _os.path.dirname(_os.path.abspath(__file__))
+    ov = _os.path.join(work, "c20_overlay.json")
+    _json.dump({"Replace": {_os.path.join(repo, "cmd/collector/zz_verif_c20_driver_test.go"): _os.path.join(here, "overlay/c20_driver_test.go")}}, open(ov, "w"))
+    out = _os.path.join(work, "c20driver.test")
+    env = dict(_os.environ, GOFLAGS="-mod=mod", GOPROXY="off", GOSUMDB="off", GOTOOLCHAIN="local")
+    cmd = ["go", "test", "-c", "-vet=off", "-tags", "verif", "-overlay", ov, "-o", out] + (["-race"] if race else []) + ["./cmd/collector"]
+    r = _sp.run(cmd, cwd=repo, env=env, stdout=_sp.PIPE, stderr=_sp.STDOUT, text=True)
+    if r.returncode != 0:
+        print(r.stdout)
+        print("BUILD-FAILED property=C20 (driver overlay build)")
+        return False
+    PROPS["C20"]["env"] = {"VERIF_C20_DRIVER": out}
+    return True
+
 PROPS = {
     "C15": P(False, (8, 16), 16, (600, 3000), 50000, 20000, "exploration",
              "one evaluation = one (element, value) pushed through GetLength / record encoding / direct decode, and through the collector's "
@@ -229,9 +248,25 @@ PROPS = {
              "message or a template between data messages; distinct by stream.",
              COMMON_ASSUME + ["string values are valid UTF-8 (RFC 7012 string; proto3 refuses anything else)"],
              "runtime monitor: recording AsyncProducer + independent protowire field parser + consumer-side decoder; race detector"),
+    "C20": P(True, (8, 16), 16, (1500, 7200), 30, 6, "exploration",
+             "one evaluation = one history of {message arrival (template or data, 1..8 fields of all renderable types incl. octetArray, "
+             "1..3 records), GET /records with count in {absent, 0, 1, 2, 5, 17, stored, 4095, 4096, 4097, 100000} x format in {absent, json, "
+             "text}, POST /reset, invalid requests (negative / non-numeric / fractional / padded / overflowing count, unknown format, wrong "
+             "method on both endpoints)} executed by an in-package driver (go test -overlay) against addIPFIXMessage and the two handlers, "
+             "recorded as an event log and checked offline: every valid query must return exactly the last min(n, stored) entries of the "
+             "sliding-window model (cap 4096) in arrival order - identified through the unique sequence number each message carries and its "
+             "entry prints -, in the right format; every invalid request must get a 4xx; reset must empty the store; every returned entry "
+             "must show every field of every record by element name and value. One history in 13 makes 17000-19000 arrivals (cap exceeded "
+             "4x); one in 13 is concurrent (writer + 4 readers + resetter under the race detector: contiguous ascending id ranges, no more "
+             "than count, nothing from the future). Non-trivial = exceeds the cap or has a reset between queries; distinct by history.",
+             COMMON_ASSUME + ["an octetArray value may be rendered as a decimal list, hex (with or without 0x), base64 or raw bytes"],
+             "runtime monitor: in-package recorder (go -overlay) + offline sliding-window model over unique message ids; race detector",
+             extra_build=_c20_build),
 }
 
 LEVEL_TEXT = {
+    "C20": "Held on every history explored, including histories several times over the cap and a concurrent phase. Unique ids make every "
+           "response checkable exactly against the window model.",
     "C19": "Held on every stream explored, for both shipped proto schemas. The wire-level parser shares nothing with the generated "
            "protobuf code, so a wrong field number or a value written to the wrong field is visible.",
     "C13": "Held on every recorded history (linearizable), every stress run (conservation) and every pool run explored. Interleavings are "
